@@ -173,6 +173,12 @@ CombRef(kind, c, iv, iw, ow) ==
               rep == d >= -Pow2(iw[1] - 1) /\ d <= Pow2(iw[1] - 1) - 1
           IN  IF rep THEN <<B(sa > sb), B(sa = sb), B(sa < sb)>> ELSE <<DC, DC, DC>>
 
+\* the same wire attached to several input ports: c.alias[k] = index (in iv / iw) of the wire on operand k
+CombRefA(kind, c, iv, iw, ow) ==
+    IF "alias" \in DOMAIN c
+    THEN CombRef(kind, c, [k \in 1..Len(c.alias) |-> iv[c.alias[k]]], [k \in 1..Len(c.alias) |-> iw[c.alias[k]]], ow)
+    ELSE CombRef(kind, c, iv, iw, ow)
+
 \* sanity of the references themselves (checked by TLC over small operands; a slip here is a
 \* machinery failure, never a finding)
 RefSanity(W) ==
